@@ -87,6 +87,11 @@ func (c *RawHTTPResponder) Write(status int, body io.Reader) (written int64, err
 	var read int
 	resp.Body = io.NopCloser(countingreader.New(body, &read))
 	resp.StatusCode = status
+	if body == http.NoBody {
+		// The answer to a HEAD request: it announces the entity's Content-Length but carries no body.
+		// net/http must know, otherwise it writes the head and then reports a length mismatch error.
+		resp.Request = &http.Request{Method: http.MethodHead}
+	}
 	c.parseAndSetContentLength()
 
 	return int64(read), c.writeResponse()
